@@ -11,7 +11,7 @@ TRUSTED = ['Lean 4.33.0 kernel (+ leanchecker in the thorough tier)',
            'independent byte encoder, comparison), Drv.lean protocol parsing',
            'compiled driver peldrv agrees with the kernel reading of the same definitions']
 ASSUME = ['CPython primitives (int.from_bytes, bytes.decode, str.format, OrderedDict, json) are modelled, not verified',
-          'the message registry is empty in this sandbox (no pel_registry package): "Error Details" is not modelled',
+          'the message registry is empty in these cases (no pel_registry package in the sandbox); "Error Details" is modelled and exercised with generated registries by C03',
           'shipped parser plugins m2c00 / oe500 are steered clear of here (C18 / C20 cover them)']
 RULE = ('cases = abstract PELs (PH, UH, 0..40 optional sections of all nine constructors, the nine hexdump-only named ids and random '
         'unknown ids; boundary-biased field values and payload lengths) encoded by the Lean `enc` (cross-checked against an independent '
@@ -29,7 +29,7 @@ def compare(ck, p, data, real, model, spec, cfg_every=True, label='pel', extra=N
             ck.fail('decoded document differs from what the property prescribes', rp | {'difference': first_diff(real[2], spec[1])}, label + '_doc')
     # ---- correspondence
     if model[0] == 'unsupported':
-        ck.skip('model: unsupported (float in user JSON)')
+        ck.skip('model: unsupported (float in user JSON, or a registry construct outside the modelled subset)')
         return
     if model[0] != real[0]:
         ck.disagree('outcome class differs from model', rp | {'impl': real[:3], 'model': model[:2]})
